@@ -3,6 +3,8 @@ import hashlib
 import json
 import random
 
+import p_rsync
+
 from vlib import Broken, Verdict, read_ndjson, write_ndjson, require_coverage
 
 TRACE_CFG = "SPECIFICATION Spec\nCHECK_DEADLOCK TRUE\n"
@@ -158,7 +160,9 @@ def check(w):
                 for procs in ((1, 16) if quick else (1, 2, 16)):
                     if quick and rnd.random() < 0.6:
                         continue
-                    conc.append({"n": n, "kind": kind, "same": same, "procs": procs})
+                    conc.append({"n": n, "kind": kind, "same": same, "procs": procs, "wire": not same})
+    if not any(c.get("wire") for c in conc):
+        conc.append({"n": 8, "kind": "mixed", "same": False, "procs": 16, "wire": True})
     if not conc:
         conc = [{"n": 8, "kind": "mixed", "same": True, "procs": 16}]
     conc.append({"n": 8, "kind": "mixed", "same": True, "procs": 16})
@@ -167,8 +171,18 @@ def check(w):
     cf, cof = w.path("c18-conc.ndjson"), w.path("c18-conc-obs.ndjson")
     write_ndjson(cf, conc)
     csumm = w.run_harness("conc", cf, cof, workers=4, binary=race_bin, extra_env={"GORACE": "halt_on_error=1", "RSVERIF_WORKER_PROCS": "16"}, case_timeout=600)
+    conc_rows = []
+    OPTS_RLT = {"r": True, "l": True, "p": False, "t": True, "dv": False, "sp": False, "c": False, "I": False, "n": False, "del": False}
     for o in read_ndjson(cof):
         if "results" in o and "id" in o:
+            # every session of a distinct-target scenario carries its own complete transcript (tap proxy per session)
+            for cs in o.get("sessions") or []:
+                fw = cs.get("fullwire")
+                if cs["result"] != "ok" or not fw:
+                    continue
+                conc_rows.append({"id": o["id"] * 100 + cs["i"], "dir": fw["dir"], "mode": fw.get("mode", "daemon"), "events": fw["events"], "parse_err": fw.get("err", ""),
+                                  "src": p_rsync.slim_nodes(o["src"]), "dst": p_rsync.slim_nodes([n for n in o["src"] if n["p"] == "."]), "final": p_rsync.slim_nodes(cs["final"]), "extra": [],
+                                  "result": "ok", "opts": OPTS_RLT, "rules": [], "judge": ["type", "content", "target"]})
             traces.append({"id": o["id"], "kind": "conc", "hung": False, "result": "", "digest": "", "basedigest": "", "race": False, "solook": o["solook"], "results": o["results"], "equal": o["equal"],
                            "_err": o.get("diff", ""), "_scn": {k: o[k] for k in ("n", "kind", "same", "procs")}, "_mix": "conc"})
         else:
@@ -208,6 +222,19 @@ def check(w):
             if t["kind"] in ("cap", "caperr"):
                 sig["arr"] = t["_scn"]["arr"]
             v.violation(sig, {"scenario": t["_scn"], "result": t["result"], "evidence": t["_err"], "results": t["results"], "equal": t["equal"]})
+    # ---- 3b. NonInterference at the wire: the transcript of EVERY concurrent session must be a behaviour of the composed
+    #          specification Rsync.tla on its own (a solo behaviour), validated action by action (RsyncTrace.tla)
+    if len(conc_rows) < 4:
+        raise Broken("only %d transcripts of concurrent sessions recorded" % len(conc_rows))
+    crej, _, cdist = p_rsync.validate(w, "conc", conc_rows, "conc")
+    for row in conc_rows:
+        if row["id"] in crej:
+            k = crej[row["id"]]
+            ev = row["events"]
+            v.violation({"what": "interference-wire", "kind": "conc", "mix": "conc"},
+                        {"session": row["id"] % 100, "scenario_id": row["id"] // 100, "dir": row["dir"], "parse_error": row["parse_err"], "events_explained": max(0, k - 1),
+                         "first_unexplained": ev[k - 1] if 0 < k <= len(ev) else "end of session / final tree"})
+    cneg = p_rsync.negative_controls(w, "conc", conc_rows, crej, w.seed, n=8)
     # negative controls
     good = [t for t in traces if t["id"] not in rej]
     bad = []
@@ -273,6 +300,7 @@ def check(w):
     v.coverage = {
         "states": states, "transitions": trans, "traces_validated_against_impl": len(traces), "exhaustive": False,
         "samples": [{"scenario": t["_scn"], "mix": t["_mix"], "result": t["result"], "hung": t["hung"]} for t in capt[:3]] + [{"scenario": t["_scn"], "results": t["results"][:4], "equal": t["equal"][:4], "race": t["race"]} for t in conct[:2]],
+        "concurrent_transcripts_validated": len(conc_rows), "concurrent_transcript_states": cdist, "concurrent_transcript_negative_controls": cneg,
         "capacity_pairs_model_checked": pairs, "capacity_runs": len(capt), "fault_runs": sum(1 for t in capt if t["kind"] == "caperr"), "concurrent_scenarios": len(conct), "concurrent_sessions": sum(len(t["results"]) for t in conct),
         "evaluations": len(traces), "distinct_nontrivial": sum(1 for t in capt if t["_scn"].get("capup") in (-2, 1, 17) or t["_scn"].get("capdown") in (-2, 1, 17)) + len(conct),
         "rule": "cap: a real client <-> real server transfer (library pull and push; local copy over io.Pipe) over a transport with capacity {rendezvous, 1 B, 17 B, 64 KiB, unbounded} per direction, read chunking {1, 3, 7, 4096 B} and random yields, "
